@@ -49,7 +49,8 @@ def compare_stream(name, mmh_args, stats, stdin_data=None, count_kinds=False):
             problems.append({"kind": "bad-line", "stream": name, "impl": a[:300], "driver": b[:300]})
             continue
         agree, judge, ntok, ntriv, ndrop, detail = g[:6]
-        h = hash(f[0])
+        is_k = f[0] == "K"
+        h = hash("K" + f[2]) if is_k else hash(f[0])
         stats["distinct"].add(h)
         ntok = int(ntok)
         if ntok >= 3:      # at least two tokens besides Eof
@@ -68,13 +69,13 @@ def compare_stream(name, mmh_args, stats, stdin_data=None, count_kinds=False):
             stats["impl_property_failures"] += 1
         if agree == "ok" and not judge.startswith("bad"):
             if len(stats["samples"]) < 3 and ntok >= 4 and stats["evaluations"] % 4999 == 7:
-                stats["samples"].append({"src": unhex(f[0])[:200], "impl_tokens": f[2][:300], "impl_token_indices": f[3][:100],
+                stats["samples"].append({"src": ("<kind sequence>" if is_k else unhex(f[0])[:200]), "impl_tokens": f[2][:300], "impl_token_indices": f[3][:100],
                                          "impl_trailing": f[5][:100], "impl_leaves": f[6][:100], "model": "identical", "judge": judge})
             if judge == "ok":
                 continue
         rec = {"kind": "case", "stream": name, "agree": agree, "judge": judge, "model_value": detail[:2000]}
         rec.update({k: v for k, v in zip(FIELDS, f)})
-        rec["src"] = unhex(f[0])
+        rec["src"] = "<kind sequence> " + f[2] if is_k else unhex(f[0])
         if len(f) > 8:
             rec["file"] = f[8]
         problems.append(rec)
@@ -114,8 +115,11 @@ def main(ctx, args):
     problems = []
     if args.replay:
         r = json.load(open(args.replay))
-        hx = r.get("src_hex") or (r["src"].encode().hex() or "-")
-        problems += compare_stream("replay", ["lines"], stats, stdin_data=hx + "\n")
+        if r.get("src_hex") == "K":
+            data = "K\t" + r["tokens"] + "\n"
+        else:
+            data = (r.get("src_hex") or (r["src"].encode().hex() or "-")) + "\n"
+        problems += compare_stream("replay", ["lines"], stats, stdin_data=data)
     else:
         cdir = os.path.join(VERIF, "corpus", "C13")
         data = ""
@@ -131,6 +135,8 @@ def main(ctx, args):
         maxlen = 4 if ctx.tier == "quick" else 5
         shards = 16 if ctx.tier == "quick" else 128
         jobs = [(f"enum{k}", ["enum", str(maxlen), str(k), str(shards)], k == 0) for k in range(shards)]
+        klen = 6 if ctx.tier == "quick" else 7
+        jobs.append(("kinds", ["kinds", str(klen)], False))
         nrand = 16 if ctx.tier == "quick" else 64
         per = 20000 if ctx.tier == "quick" else 100000
         for i in range(nrand):
@@ -145,6 +151,8 @@ def main(ctx, args):
             problems += pr
         ctx.coverage["exhaustive_scope"] = (f"all strings of length <= {maxlen} over the 24-symbol alphabet "
                                             "a 0 1 . \" / * \\n \\r space _ | & = ! < > - : ; ( ) é U+3000")
+        ctx.coverage["exhaustive_scope_kinds"] = (f"all token-kind sequences of length <= {klen} over Whitespace LineBreak SingleLineComment "
+                                                  "Ident ParenEnd Error Eof fed directly to the public preparse/parse_cst")
         ctx.coverage["exhaustive"] = False
         ctx.coverage["shipped_sources"] = nfiles
     # ---- decide
@@ -165,7 +173,7 @@ def main(ctx, args):
                 new_fail.append(pr)
         elif pr["agree"] != "ok":
             disagree.append(pr)
-    sz = lambda pr: len(pr["src_hex"])
+    sz = lambda pr: len(pr["tokens"]) if pr["src_hex"] == "K" else len(pr["src_hex"])
     if new_fail:
         best = min(new_fail, key=sz)
         ctx.violation(f"front end violates C13 ({best['judge']}) on src={best['src']!r}; {len(new_fail)} failing cases",
